@@ -222,6 +222,9 @@ func (c *FnCtx) name(st *State, prefix, term, sort string) string {
 // ---------- heap access ----------
 
 func (c *FnCtx) heapName(base string, epoch int) string {
+	if strings.HasPrefix(base, "G!") {
+		base = "G!" + sanitize(base[2:]) // package-level variables may have non-ASCII names (ΛEnum)
+	}
 	return fmt.Sprintf("%s@%d", base, epoch)
 }
 
